@@ -194,15 +194,19 @@ theorem safe_associatePT {s0 : St} (hg0 : Good s0) (lrv : Nat) (tmpl : List Desi
                     exact ht htt
       cases hf : findObj s.objs r.kind r.name with
       | some o =>
-        simp only [Safe, sem, exec_getObj_some hf, isRead, if_true]
-        exact ⟨hg, hfound o hf, safe_onError hg _, safe_onError hg _⟩
+        by_cases hm : (⟨r.kind, r.name⟩ : Ref) ∈ s.miss
+        · -- missing from the cache: the live read finds it
+          simp only [Safe, sem, exec_getCached_miss hm, exec_getObj_some hf, isRead, if_true]
+          exact ⟨hg, ⟨hg, hfound o hf, safe_onError hg _, safe_onError hg _⟩, safe_onError hg _, safe_onError hg _⟩
+        · simp only [Safe, sem, exec_getCached_some hf hm, isRead, if_true]
+          exact ⟨hg, hfound o hf, safe_onError hg _, safe_onError hg _⟩
       | none =>
         have hnone : Safe sem Good (associatePT lrv tmpl rs acc k) s := by
           apply ih (done ++ [r]) acc s hrs' hdone' _ hk'
           apply assocOK_skip r hacc
           intro o ho hko
           exact absurd ((key_eq_iff o r.kind r.name).mp (by cases r; simpa [key] using hko)) (findObj_none hf o ho)
-        simp only [Safe, sem, exec_getObj_none hf, isRead, if_true]
+        simp only [Safe, sem, exec_getCached_none hf, exec_getObj_none hf, isRead, if_true]
         exact ⟨hg, ⟨hg, hnone, safe_onError hg _, safe_onError hg _⟩, safe_onError hg _, safe_onError hg _⟩
 
 
@@ -222,7 +226,7 @@ structure RendOK (s : St) (a : Assoc) (tmpl : List Desired) (rs : List Rendered)
 theorem safe_renderPT {s : St} (hg : Good s) (lrv : Nat) (a : Assoc) (tmpl : List Desired) (k : List Rendered → P)
     (hk : ∀ rs, RendOK s a tmpl rs → Safe sem Good (k rs) s) :
     ∀ (ds : List Desired) (fresh : List String) (acc : List Rendered),
-      (∀ x ∈ fresh, x ≠ "") →
+      (∀ x ∈ fresh, x ≠ "") → FreshAvoids s.miss fresh →
       (∀ e ∈ acc, REntry s a e) →
       (∀ d ∈ tmpl, d ∈ ds ∨ ∃ e ∈ acc, e.d = d) →
       (ds.map (·.rname) ++ acc.map (·.d.rname)).Nodup →
@@ -230,7 +234,7 @@ theorem safe_renderPT {s : St} (hg : Good s) (lrv : Nat) (a : Assoc) (tmpl : Lis
   intro ds
   induction ds with
   | nil =>
-    intro fresh acc _ he hc hn
+    intro fresh acc _ _ he hc hn
     simp only [renderPT]
     apply hk
     refine ⟨?_, ?_, ?_⟩
@@ -242,11 +246,12 @@ theorem safe_renderPT {s : St} (hg : Good s) (lrv : Nat) (a : Assoc) (tmpl : Lis
     · simp only [List.map_nil, List.nil_append] at hn
       rw [List.map_reverse]; exact (List.reverse_perm _).nodup_iff.mpr hn
   | cons d ds ih =>
-    intro fresh acc hfr he hc hn
+    intro fresh acc hfr hfm he hc hn
     have step : ∀ (nm : Rendered), nm.d = d → REntry s a nm → ∀ fresh', (∀ x ∈ fresh', x ≠ "") →
+        FreshAvoids s.miss fresh' →
         Safe sem Good (renderPT lrv a ds fresh' (nm :: acc) k) s := by
-      intro nm hnd hent fresh' hfr'
-      apply ih fresh' (nm :: acc) hfr'
+      intro nm hnd hent fresh' hfr' hfm'
+      apply ih fresh' (nm :: acc) hfr' hfm'
       · intro e he'; rcases List.mem_cons.mp he' with rfl | h; exact hent; exact he e h
       · intro x hx
         rcases hc x hx with h | ⟨e, he', ee⟩
@@ -264,7 +269,7 @@ theorem safe_renderPT {s : St} (hg : Good s) (lrv : Nat) (a : Assoc) (tmpl : Lis
       simp only []
       by_cases hkd : r.kind = d.kind
       · simp only [hkd, if_true]
-        apply step ⟨d, r.name, true⟩ rfl _ fresh hfr
+        apply step ⟨d, r.name, true⟩ rfl _ fresh hfr hfm
         simp only [REntry, if_true, rkey, hl]
         left; cases r; simp_all
       · simp only [hkd, if_false]; exact safe_onError hg _
@@ -273,19 +278,21 @@ theorem safe_renderPT {s : St} (hg : Good s) (lrv : Nat) (a : Assoc) (tmpl : Lis
       cases fresh with
       | nil =>
         simp only []
-        exact step ⟨d, "", false⟩ rfl (by simp [REntry, hl]) [] (by intro x hx; cases hx)
+        exact step ⟨d, "", false⟩ rfl (by simp [REntry, hl]) [] (by intro x hx; cases hx) hfm
       | cons nm fresh' =>
         simp only []
         have hfr' : ∀ x ∈ fresh', x ≠ "" := fun x hx => hfr x (List.mem_cons_of_mem _ hx)
-        have hun := step ⟨d, "", false⟩ rfl (by simp [REntry, hl]) fresh' hfr'
+        have hun := step ⟨d, "", false⟩ rfl (by simp [REntry, hl]) fresh' hfr' hfm.tail
+        -- the proposed name is not the name of an object missing from the cache: the probe is exact
+        have hm : (⟨d.kind, nm⟩ : Ref) ∉ s.miss := hfm.head d.kind
         cases hfo : findObj s.objs d.kind nm with
         | some o =>
-          simp only [Safe, sem, exec_getObj_some hfo, isRead, if_true]
+          simp only [Safe, sem, exec_getCached_some hfo hm, isRead, if_true]
           exact ⟨hg, hun, hun, hun⟩
         | none =>
-          simp only [Safe, sem, exec_getObj_none hfo, isRead, if_true]
+          simp only [Safe, sem, exec_getCached_none hfo, isRead, if_true]
           refine ⟨hg, ?_, hun, hun⟩
-          exact step ⟨d, nm, true⟩ rfl (by simp [REntry, hl, hfo, hfr nm (List.mem_cons_self ..)]) fresh' hfr'
+          exact step ⟨d, nm, true⟩ rfl (by simp [REntry, hl, hfo, hfr nm (List.mem_cons_self ..)]) fresh' hfr' hfm.tail
 
 /-! ### references written, then the apply loop -/
 
@@ -393,12 +400,17 @@ theorem mid_create {s : St} {ents : List Ent} (h : Mid s ents) (e : Ent) (he : e
     ((exec s (.create e.2.kind e.2.name e.1 c)).2 = .ok ∨ (exec s (.create e.2.kind e.2.name e.1 c)).2 = .invalid) ∧
     Mid (exec s (.create e.2.kind e.2.name e.1 c)).1 ents := by
   by_cases hinv : c = invalidContent
-  · simp only [exec, hinv, if_true]; exact ⟨Or.inr trivial, h⟩
+  · simp only [exec, hf, hinv, if_true]; exact ⟨Or.inr trivial, h⟩
   have hw := mid_write h e he hne (fun o => { o with annot := e.1 }) (fun _ => rfl) (fun _ => rfl)
     ⟨e.2.kind, e.2.name, e.1, .xr, false, false, c, false⟩ rfl rfl
     (by intro o ho; rw [hf] at ho; cases ho)
-  simp only [exec, hinv, if_false, hf]
+  simp only [exec, hf, hinv, if_false]
   exact ⟨Or.inl trivial, by simpa [hf] using hw⟩
+
+/-- a Create of an object that exists (it was missing from the cache) writes nothing -/
+theorem exec_create_exists {s : St} {k n a : String} {c : Nat} {o : CObj} (hf : findObj s.objs k n = some o) :
+    exec s (.create k n a c) = (s, .exists_) := by
+  simp only [exec, hf]
 
 theorem mid_mergePatch {s : St} {ents : List Ent} (h : Mid s ents) (e : Ent) (he : e ∈ ents) (hne : e.2.name ≠ "") (c : Nat)
     {o : CObj} (hf : findObj s.objs e.2.kind e.2.name = some o) (hc : o.ctrl ≠ .other) :
@@ -433,7 +445,7 @@ theorem safe_applyPT (lrv : Nat) (ents : List Ent) (k : Bool → P) :
       obtain ⟨hee, hen⟩ := hl e (List.mem_cons_self ..) hren
       cases hf : findObj s.objs e.d.kind e.name with
       | none =>
-        simp only [Safe, sem, exec_getObj_none hf, isRead, if_true]
+        simp only [Safe, sem, exec_getCached_none hf, isRead, if_true]
         refine ⟨hg, ?_, safe_onError hg _, safe_onError hg _⟩
         obtain ⟨hresp, hm1⟩ := mid_create hm (e.d.rname, rkey e) hee hen e.d.content hf
         apply safe_wcall hg _ _ _ hm1.good
@@ -442,7 +454,17 @@ theorem safe_applyPT (lrv : Nat) (ents : List Ent) (k : Bool → P) :
         · exact ih _ b hm1 hl' hk
         · exact ih _ false hm1 hl' hk
       | some o =>
-        simp only [Safe, sem, exec_getObj_some hf, isRead, if_true]
+        by_cases hmiss : (⟨e.d.kind, e.name⟩ : Ref) ∈ s.miss
+        · -- the object exists but is missing from the cache: Apply takes the Create branch, the
+          -- API server answers AlreadyExists, nothing is written and the reconcile errors
+          simp only [Safe, sem, exec_getCached_miss hmiss, isRead, if_true]
+          refine ⟨hg, ?_, safe_onError hg _, safe_onError hg _⟩
+          have hex : exec s (.create e.d.kind e.name e.d.rname e.d.content) = (s, .exists_) := exec_create_exists hf
+          apply safe_wcall hg _ _ _ (by rw [hex]; exact hg)
+          intro _ _
+          rw [hex]
+          exact safe_onError hg _
+        simp only [Safe, sem, exec_getCached_some hf hmiss, isRead, if_true]
         refine ⟨hg, ?_, safe_onError hg _, safe_onError hg _⟩
         by_cases hc : o.ctrl = .other
         · simp only [hc, if_true]; exact safe_onError hg _
@@ -461,7 +483,7 @@ structure TmplOK (tmpl : List Desired) (fresh : List String) : Prop where
 theorem exec_patchXR (s : St) : exec s .patchXR = (s, .ok) := by simp [exec]
 
 theorem safe_composePT {s : St} (hg : Good s) (lrv : Nat) (tmpl : List Desired) (fresh : List String) (ver : String)
-    (ht : TmplOK tmpl fresh) : Safe sem Good (composePT lrv s.refs tmpl fresh ver) s := by
+    (ht : TmplOK tmpl fresh) (hfm : FreshAvoids s.miss fresh) : Safe sem Good (composePT lrv s.refs tmpl fresh ver) s := by
   unfold composePT
   apply safe_associatePT hg lrv tmpl _ s.refs [] [] s (fun r h => h) (by intro r h; cases h)
   · refine ⟨Shrunk.rfl' hg, ?_, ?_⟩
@@ -470,7 +492,7 @@ theorem safe_composePT {s : St} (hg : Good s) (lrv : Nat) (tmpl : List Desired) 
   · intro a s1 hass
     simp only [List.nil_append] at hass
     have hg1 := hass.sh.good hg
-    apply safe_renderPT hg1 lrv a tmpl _ _ tmpl fresh [] ht.fresh (by intro e h; cases h)
+    apply safe_renderPT hg1 lrv a tmpl _ _ tmpl fresh [] ht.fresh (hass.sh.miss ▸ hfm) (by intro e h; cases h)
       (fun d h => Or.inl h) (by simpa using ht.nodup)
     intro rs hrs
     rcases exec_updateXR_cases s1 lrv ver (rs.map rkey) with ⟨hc, hst⟩ | ⟨hnc, hne, hr, ho, hf0⟩
@@ -495,11 +517,11 @@ theorem safe_composePT {s : St} (hg : Good s) (lrv : Nat) (tmpl : List Desired) 
       · intro _ _; rw [exec_patchXR]; exact safe_finish hg5 _ _
 
 theorem safe_reconcile_pt {s : St} (hg : Good s) (tmpl : List Desired) (fresh : List String) (ver : String)
-    (ht : TmplOK tmpl fresh) : Safe sem Good (reconcile (.pt tmpl fresh ver)) s := by
+    (ht : TmplOK tmpl fresh) (hfm : FreshAvoids s.miss fresh) : Safe sem Good (reconcile (.pt tmpl fresh ver)) s := by
   apply safe_reconcile_of_body hg
-  intro s' lrv hg' hr
+  intro s' lrv hg' hr hmiss
   simp only []
   rw [← hr]
-  exact safe_composePT hg' lrv tmpl fresh ver ht
+  exact safe_composePT hg' lrv tmpl fresh ver ht (hmiss ▸ hfm)
 
 end Xp.C01
